@@ -1,3 +1,5 @@
 pub mod c01;
 pub mod c04;
 pub mod c03;
+pub mod c15;
+pub mod c02;
